@@ -23,6 +23,8 @@ import subprocess
 import sys
 from typing import Any, Dict, List, Optional, Tuple
 
+from fractions import Fraction
+
 import z3
 
 from engine import families, internmodel as im, par, report, symnum, work
@@ -708,8 +710,109 @@ def tasks_for(tier: str) -> List[Tuple]:
         [("dimension-derive", "dname", "DS"), ("dimension-derive", "dname", None)]
 
 
+DECL_REPLAY = """
+from decimal import Decimal
+from measured import Length, Temperature, conversions
+A = Length.unit('c19-decl-a', 'c19da'); B = Length.unit('c19-decl-b', 'c19db')
+def snapshot():
+    return ({{u: dict(v) for u, v in conversions._ratios.items() if v}},
+            {{u: dict(v) for u, v in conversions._offsets.items() if v}})
+before = snapshot()
+x, y = {x}, {y}
+try:
+    {call}
+    print('the declaration was accepted'); sys.exit(0)
+except Exception as e:
+    print('the declaration raised', type(e).__name__, e)
+after = snapshot()
+print('entries before:', sum(map(len, before[0].values())), ' after:', sum(map(len, after[0].values())))
+if after != before:
+    print('REPRODUCED: a declaration that raised left part of itself in the conversion tables')
+    try:
+        print('   and it is used:', (1 * A).in_unit(B))
+    except Exception as e:
+        print('  ', type(e).__name__)
+    sys.exit(1)
+sys.exit(0)
+"""
+
+
+def declaration_atomicity(rep: report.Report) -> None:
+    """equals / equate / translate are definition calls too: with symbolic magnitudes on both
+    sides, a call that raises (a zero magnitude divides) must leave the conversion tables as
+    they were."""
+    import measured
+    from measured import Length, conversions
+
+    x, y = z3.Real("dx"), z3.Real("dy")
+    P = symnum.Prover()
+    a_u = Length.unit("c19-decl-sym-a", "c19dsa")
+    b_u = Length.unit("c19-decl-sym-b", "c19dsb")
+    calls = {
+        "Unit.equals": (lambda X, Y: a_u.equals(Y * b_u), "A.equals(y * B)"),
+        "conversions.equate": (lambda X, Y: conversions.equate(X * a_u, Y * b_u), "conversions.equate(x * A, y * B)"),
+        "conversions.translate": (lambda X, Y: conversions.translate(a_u, Y * b_u), "conversions.translate(A, y * B)"),
+    }
+    for kind in ("float", "dec", "int"):
+        for label, (call, code) in calls.items():
+            log: List[Any] = []
+
+            class LoggingDict(dict):
+                def __setitem__(self, k: Any, v: Any) -> None:
+                    log.append((k, v))
+                    dict.__setitem__(self, k, v)
+
+            class TableModel(dict):
+                def __missing__(self, k: Any) -> Any:
+                    d = LoggingDict()
+                    dict.__setitem__(self, k, d)
+                    return d
+
+            def fn() -> Any:
+                log.clear()
+                saved = (conversions._ratios, conversions._offsets)
+                conversions._ratios, conversions._offsets = TableModel(), TableModel()
+                try:
+                    X = symnum.mk(kind, x if kind != "int" else z3.Int("dxi"))
+                    Y = symnum.mk(kind, y if kind != "int" else z3.Int("dyi"))
+                    try:
+                        call(X, Y)
+                        return {"raised": None, "writes": list(log)}
+                    except symnum.HarnessError:
+                        raise
+                    except Exception as e:
+                        return {"raised": type(e).__name__, "writes": list(log)}
+                finally:
+                    conversions._ratios, conversions._offsets = saved
+
+            with symnum.Shims():
+                ex = explore(fn, max_paths=64)
+            rep.merge_stats(queries=ex.queries, solver_s=ex.solver_s, paths=len(ex.paths))
+            for i, p in enumerate(ex.paths):
+                key = ("declaration", label, kind, i)
+                if p.exc is not None:
+                    rep.ob("unknown", f"{label}/{kind}#p{i}: {p.outcome}", key)
+                    continue
+                r = p.result
+                if r["raised"] is None or not r["writes"]:
+                    rep.ob("unsat", f"{label}/{kind}#p{i}: {'accepted' if r['raised'] is None else 'raises and leaves no write'}", key)
+                    continue
+                vs = [x, y] if kind != "int" else [z3.Int("dxi"), z3.Int("dyi")]
+                m = P.shaped_model([p.cond], vs) or {}
+                xv, yv = (m.get(str(v), Fraction(1)) for v in vs)
+                rep.ob("sat", f"{label}/{kind}#p{i}: raises {r['raised']} after {len(r['writes'])} table write(s)", key)
+                rep.violation(f"C19:atomicity:{label}:_ratios/_offsets",
+                              f"{label} with magnitudes {xv}, {yv} ({kind}) raises {r['raised']} but has already "
+                              f"stored {len(r['writes'])} entr{'y' if len(r['writes']) == 1 else 'ies'} in the "
+                              f"conversion tables",
+                              families.REPLAY_IMPORTS + DECL_REPLAY.format(x=work.lit(kind, xv), y=work.lit(kind, yv),
+                                                                           call=code))
+    rep.functions.update(["measured.Unit.equals", "measured.conversions.equate"])
+
+
 def main(tier: str, selftest_cases: int = 0) -> int:
     rep = report.Report(PID, tier, "other")
+    declaration_atomicity(rep)
     tasks = families.shuffled(tasks_for(tier), rep.seed)
     results = par.run("props.c19", "worker", tasks)
     work.merge(rep, results)
